@@ -7,6 +7,7 @@
 -/
 import ZanVerif.Data.HashInv
 import ZanVerif.Data.HashRef
+import ZanVerif.Data.HashIncr
 import ZanVerif.Data.Codec
 
 namespace Z.HashExec
@@ -52,12 +53,27 @@ def hscan (m : List KV) (k : Bytes) : List KV := scan m (F.start k) (F.stop k)
 def hclear (m : List KV) (k : Bytes) : List KV :=
   del ((hscan F m k).foldl (fun acc p => del acc p.1) m) (F.metaK k)
 
+/-- what `HIncrBy` reads (`hGetRawFieldValue` with checkExpired = true): no size meta ⇒ the field counts as missing -/
+def hincrCur (m : List KV) (k f : Bytes) : Option Bytes :=
+  if Gen.hincrFieldMissing false (get m (F.metaK k)).isNone then none else get m (F.fieldK k f)
+
+/-- HINCRBY (`RockDB.HIncrBy`): old value parsed with ParseInt(·, 10, 64) (missing = 0), wrapping int64 addition, the
+    decimal text written through `hSetField` (= `hset`: size meta + 1 for a new field), reply = the new number -/
+def hincrby (m : List KV) (k f : Bytes) (d : Int) : List KV × Z.HashIncr.IReply :=
+  Z.HashIncr.incrWith m (hincrCur F m k f) d (fun v => hset F m k f v)
+
+/-- the apply handler `localHIncrbyCommand`: the increment text is parsed first -/
+def hincrbyCmd (m : List KV) (k f dtxt : Bytes) : List KV × Z.HashIncr.IReply :=
+  Z.HashIncr.cmdWith m dtxt (hincrby F m k f)
+
 theorem hlen_eq (E : Z.HashInv.Enc) : hlen (ofEnc E) = Z.HashInv.hlen E := rfl
 theorem hset_eq (E : Z.HashInv.Enc) : hset (ofEnc E) = Z.HashInv.hset E := rfl
 theorem hdel_eq (E : Z.HashInv.Enc) : hdel (ofEnc E) = Z.HashInv.hdel E := rfl
 theorem hget_eq (E : Z.HashInv.Enc) : hget (ofEnc E) = Z.HashRef.hget E := rfl
 theorem hsetReply_eq (E : Z.HashInv.Enc) : hsetReply (ofEnc E) = Z.HashRef.hsetReply E := rfl
 theorem hdelReply_eq (E : Z.HashInv.Enc) : hdelReply (ofEnc E) = Z.HashRef.hdelReply E := rfl
+theorem hincrby_eq (E : Z.HashInv.Enc) : hincrby (ofEnc E) = Z.HashIncr.hincrby E := rfl
+theorem hincrbyCmd_eq (E : Z.HashInv.Enc) : hincrbyCmd (ofEnc E) = Z.HashIncr.hincrbyCmd E := rfl
 
 /-- the real codec of table `table` (rockredis, local-deletion layout) -/
 def realFns (table : Bytes) : EncFns where
